@@ -87,7 +87,7 @@ func (p *c17) NumPlans(tier string) int {
 var c17Faults = map[string][]string{
 	"download": {"none", "none", "data-flip", "data-drop", "data-dup", "data-swap", "data-short", "data-long", "length-less", "length-more", "digest-flip", "createtemp-fail", "write-fail", "rename-fail"},
 	"upload":   {"none", "none", "data-flip", "data-drop", "data-dup", "data-swap", "data-short", "data-long", "length-less", "length-more", "digest-flip", "createtemp-fail", "write-fail", "dest-missing"},
-	"wget":     {"none", "none", "http-flip", "http-trunc", "http-err", "http-500", "http-stall", "digest-flip", "createtemp-fail", "write-fail", "rename-fail"},
+	"wget":     {"none", "none", "http-flip", "http-trunc", "http-err", "http-500", "http-stall", "digest-flip", "createtemp-fail", "write-fail", "rename-fail", "http-err-once", "http-trunc-once", "http-500-once"},
 }
 
 var c17MTUs = []int{0, 128, 129, 160, 200, 256, 300, 512, 1000, 1024, 1031, 1032, 1033, 1300, 1400, 2048, 4096, 16384, 65535}
@@ -526,8 +526,11 @@ type c17HTTP struct {
 	pl      *C17Plan
 	content []byte
 	out     *Outcome
-	served  []byte // what the client was actually given
+	served  []byte // what the client was given by the latest request
 	timeout time.Duration
+	// attempts counts requests: the "-once" faults hit the first one only (a
+	// transient fault; a client that retries gets a clean response next time)
+	attempts int
 }
 
 type c17Body struct {
@@ -568,7 +571,17 @@ func (h *c17HTTP) RoundTrip(req *http.Request) (*http.Response, error) {
 	data := append([]byte(nil), h.content...)
 	body := &c17Body{h: h, data: data, errAt: -1, ctx: req.Context()}
 	resp.ContentLength = int64(len(data))
-	switch pl.Fault {
+	h.attempts++
+	h.served = nil
+	fault := pl.Fault
+	if strings.HasSuffix(fault, "-once") {
+		fault = strings.TrimSuffix(fault, "-once")
+		if h.attempts > 1 {
+			fault = "none"
+			h.out.Probe("request-repeated-after-transient-fault")
+		}
+	}
+	switch fault {
 	case "http-500":
 		h.out.Fault(pl.Fault)
 		resp.StatusCode, resp.Status = 500, "500 Internal Server Error"
@@ -802,6 +815,10 @@ func (p *c17) Exec(env *Env, plan any) {
 		}
 		got := sha512.Sum384(recv)
 		complete := pl.Fault != "http-500" && pl.Fault != "http-err" && pl.Fault != "http-stall"
+		if (pl.Fault == "http-err-once" || pl.Fault == "http-500-once") && httpSrv.attempts < 2 {
+			// the only request made was the one that failed
+			complete = false
+		}
 		match = complete && (!pl.Checksum || bytes.Equal(got[:], dig))
 		if !pl.Checksum && !bytes.Equal(recv, content) {
 			match = false
